@@ -263,7 +263,7 @@ def client(env, T, cid, rng, nops, W, H, mode, mon, other):
     tok = None
     yield env.timeout(rng.choice((0, 0, 0.25, 0.5)))
     for _ in range(nops):
-        tok = None
+        tok = it = None
         if forget:
             H.prune()
         gp = [t for t in puts if t.triggered]
@@ -585,6 +585,7 @@ def run_case(seed, kind=None, profile=None, mode=None, nops=None):
     W = weights(profile)
     rng2 = random.Random(seed ^ 0x5EED)      # decisions added later draw from their own stream (older histories stay what they were)
     H.forgetful = rng2.random() < 0.3
+    T.sh.forget_items = H.forgetful and not mode.get("illformed")
     for c in range(ncl):
         env.process(client(env, T, c, random.Random(rng.random()), nops, W, H, mode, mon, other))
     if rng2.random() < 0.2:
@@ -646,6 +647,7 @@ def summarize(mon, sh, H, env, exc):
     mon.counters["e1_forgetful_histories"] += int(H.forgetful)
     mon.counters["e1_token_addresses_reused"] += H.addr_reused
     mon.counters["e1_script_level_ops"] += H.script_ops
+    mon.counters["e1_item_addresses_reused"] += st["item_address_reused"]
     crash = None
     if exc is not None:
         import traceback
